@@ -5,7 +5,7 @@ import ast
 import re
 from typing import List, NamedTuple, Optional
 
-from .absint import Evaluator, Obj, Unmodelled
+from .absint import TOP, Evaluator, Obj, Unmodelled
 from .core import AnalysisError, Project, norm
 
 _PAIR = re.compile(r"^(\w+):(\w+)$")
@@ -68,29 +68,46 @@ def extract(P: Project, module: str = "gridops") -> List[Entry]:
     return cache[module]
 
 
+def _deco_model(P: Project):
+    """Model of `as_grid_ufunc(...)`: records the options it is called with (bound to the real parameter names)."""
+    target = P.func("grid_ufunc:as_grid_ufunc")
+    pnames = [p for p in target.params[0]]
+
+    def m(ev, args, kw, node):
+        if len(args) > len(pnames):
+            raise Unmodelled("too many positional arguments to as_grid_ufunc", node)
+        opts = dict(zip(pnames, args))
+        for k, v in kw.items():
+            if k == "**":
+                raise Unmodelled("as_grid_ufunc(**unknown)", node)
+            opts[k] = v
+        return Obj("GridUFuncDeco", "as_grid_ufunc", (), {"opts": opts})
+
+    return m
+
+
 def _extract(P: Project, module: str) -> List[Entry]:
+    """Every module-level function whose decorator *evaluates* to an `as_grid_ufunc(...)` call: the decorator
+    expression is interpreted (helper factories, tables and f-strings included), not matched syntactically."""
+    from .absint import Env
+
     mod = P.module(module)
     out = []
+    ev = Evaluator(P, models={"grid_ufunc:as_grid_ufunc": _deco_model(P)})
     for st in mod.tree.body:
         if not isinstance(st, ast.FunctionDef):
             continue
         for d in st.decorator_list:
-            if not (isinstance(d, ast.Call) and isinstance(d.func, ast.Name)):
-                continue
-            imp = mod.imports.get(d.func.id)
-            if not (imp and imp[1] == "as_grid_ufunc") and d.func.id != "as_grid_ufunc":
-                continue
-            opts = {}
-            names = ["signature", "boundary_width"]
             try:
-                for n, a in zip(names, d.args):
-                    opts[n] = P.fold(a, mod)
-                for k in d.keywords:
-                    if k.arg is None:
-                        raise ValueError("**")
-                    opts[k.arg] = P.fold(k.value, mod)
-            except ValueError as e:
-                raise AnalysisError(f"gridops.{st.name}: decorator option not a constant ({e})")
+                v = ev.ev(d, Env({}, None, module), None)
+            except Unmodelled as e:
+                raise AnalysisError(f"{module}.{st.name}: decorator `{norm(d, 80)}` cannot be evaluated ({e})")
+            if not (isinstance(v, Obj) and v.kind == "GridUFuncDeco"):
+                continue
+            opts = dict(v.attrs["opts"])
+            for k, val in opts.items():
+                if isinstance(val, Obj) or val is TOP:
+                    raise AnalysisError(f"{module}.{st.name}: decorator option `{k}` is not a constant ({val!r})")
             sig = opts.get("signature", "")
             fi = P.func(f"{module}:{st.name}")
             out.append(Entry(st.name, fi, sig, parse_signature(sig) if isinstance(sig, str) else None, opts, kernel_lineage(P, fi), d))
